@@ -6,6 +6,7 @@ by kernel evaluation, instantiated at the generated tables. Hand-written: the ge
 import PhQVerif.Core.Check
 import PhQVerif.Core.Lex
 import PhQVerif.Core.Angle
+import PhQVerif.Core.Direction
 import PhQVerif.Generated.Tables
 import PhQVerif.Generated.Kernels
 
@@ -83,5 +84,10 @@ def C11sym (t : Entry × Entry) : Bool :=
   | _ => false
 /-- C11: a quantity-level angle constructor / member has exactly the kernel's tree. -/
 def C11kernel (t : Entry × Entry) : Bool := t.1.tree.beq t.2.tree
+
+/-- C10: every construction path of a direction normalises. -/
+def C10dir (e : Entry) : Bool := checkDirection classes e
+/-- C10: magnitudes. -/
+def C10mag (e : Entry) : Bool := checkMagnitude classes e
 
 end PhQVerif.Chk
